@@ -28,9 +28,10 @@ type JXMem struct {
 	V  JX     `json:"v"`
 }
 type JX struct {
-	K string  `json:"k"`
-	B B       `json:"b"`
-	E []JXMem `json:"e"`
+	K     string  `json:"k"`
+	B     B       `json:"b"`
+	E     []JXMem `json:"e"`
+	Plain bool    `json:"plain,omitempty"` // str: print without escapes
 }
 type J2TOpts struct {
 	S2i      bool `json:"s2i"`
@@ -42,6 +43,10 @@ type J2TOpts struct {
 	Wopt     bool `json:"wopt"`
 	Optbm    bool `json:"optbm"`
 	Usedflt  bool `json:"usedflt"`
+	Vm       bool `json:"vm"` // EnableValueMapping (api.js_conv fields)
+	// generator only: which of the known-defective js_conv shapes this document may contain
+	// ("" | jsconv-null | jsconv-escaped | jsconv-i16)
+	vmVar string
 }
 type J2TCase struct {
 	Desc    *DescJ  `json:"desc,omitempty"`
@@ -61,6 +66,7 @@ type jprinter struct {
 	esc64 bool
 	// plainZero: never spell an integer zero as "-0" (that spelling is C02's business)
 	plainZero bool
+	plainStr  bool // the string being printed must not use escapes
 }
 
 func (p *jprinter) ws() {
@@ -80,7 +86,7 @@ func (p *jprinter) ws() {
 func (p *jprinter) str(b []byte) {
 	p.sb.WriteByte('"')
 	mode := 0
-	if p.r != nil {
+	if p.r != nil && !p.plainStr {
 		mode = p.r.Intn(5)
 	}
 	for i := 0; i < len(b); {
@@ -255,7 +261,9 @@ func (p *jprinter) val(x *JX) {
 	case "intstr":
 		p.sb.WriteString("\"" + strconv.FormatInt(fromBE8(x.B), 10) + "\"")
 	case "str":
+		p.plainStr = x.Plain
 		p.str(x.B)
+		p.plainStr = false
 	case "b64":
 		// base64 text needs no escapes; optional escapes (\/ \uXXXX) only in the dedicated variant
 		if p.esc64 {
@@ -377,7 +385,7 @@ func (c *c02) run(jc J2TCase) {
 		jc.O.S2i = true
 	}
 	cv := j2t.NewBinaryConv(conv.Options{String2Int64: jc.O.S2i, NoBase64Binary: jc.O.Nob64, DisallowUnknownField: jc.O.Disallow,
-		WriteRequireField: jc.O.Wreq, WriteDefaultField: jc.O.Wdef, WriteOptionalField: jc.O.Wopt})
+		WriteRequireField: jc.O.Wreq, WriteDefaultField: jc.O.Wdef, WriteOptionalField: jc.O.Wopt, EnableValueMapping: jc.O.Vm})
 	type res struct {
 		API string `json:"api"`
 		Cap int    `json:"cap"`
@@ -442,7 +450,7 @@ func (c *c02) run(jc J2TCase) {
 	one("DoInto+prefix", 0)
 	tb := B(text)
 	c.out.Emit(map[string]interface{}{"ev": "J2T", "d": d, "s2i": jc.O.S2i, "nob64": jc.O.Nob64, "disallow": jc.O.Disallow,
-		"wreq": jc.O.Wreq, "wdef": jc.O.Wdef, "wopt": jc.O.Wopt, "optbm": jc.O.Optbm, "usedflt": jc.O.Usedflt,
+		"wreq": jc.O.Wreq, "wdef": jc.O.Wdef, "wopt": jc.O.Wopt, "optbm": jc.O.Optbm, "usedflt": jc.O.Usedflt, "vm": jc.O.Vm,
 		"variant": jc.Variant, "res": rs, "text": string(text),
 		"case": J2TCase{Desc: &c.cur, Variant: jc.Variant, TextB: tb, O: jc.O}})
 }
@@ -536,7 +544,18 @@ func genDoc(r *rand.Rand, t TyJ, d DescJ, depth int, o J2TOpts) JX {
 				continue
 			}
 			v := genDoc(r, f.Ty, d, depth+1, o)
-			if r.Intn(10) == 0 {
+			if o.Vm && f.VM == "jsconv" {
+				// api.js_conv: numbers may come as strings, a string field may get a bare number, "" stands for "no number"
+				switch {
+				case f.Ty.T != tSTR && v.K == "int" && r.Intn(2) == 0:
+					v = JX{K: "str", B: B(strconv.FormatInt(fromBE8(v.B), 10)), Plain: o.vmVar != "jsconv-escaped"}
+				case f.Ty.T != tSTR && r.Intn(6) == 0:
+					v = JX{K: "str", B: B{}}
+				case f.Ty.T == tSTR && r.Intn(2) == 0:
+					v = JX{K: "int", B: be8([]int64{0, 7, -12, 123456789012, -1}[r.Intn(5)])}
+				}
+			}
+			if r.Intn(10) == 0 && !(o.Vm && f.VM == "jsconv" && o.vmVar != "jsconv-null") {
 				v = JX{K: "null"}
 			}
 			x.E = append(x.E, JXMem{NK: "str", N: f.Key, V: v})
@@ -574,8 +593,20 @@ func (c *c02) genRandom(seed int64, base, n int) {
 		}
 		r := rand.New(rand.NewSource(seed*1000003 + int64(i)))
 		d := randDescGraph(r, true)
+		vmDesc := c.prop != "c16" && r.Intn(3) == 0
+		vmI16 := vmDesc && r.Intn(6) == 0 // i16 fields too: documents of such descriptors are labelled (variant jsconv-i16)
+		if vmDesc {
+			// value mapping: some integer / double / string fields carry api.js_conv
+			for _, fs := range d.Structs {
+				for j := range fs {
+					if t := fs[j].Ty; (t.T == tI8 || (t.T == tI16 && vmI16) || t.T == tI32 || t.T == tI64 || t.T == tDBL || (t.T == tSTR && t.N != "binary")) && r.Intn(2) == 0 {
+						fs[j].VM = "jsconv"
+					}
+				}
+			}
+		}
 		for k := 0; k < 6; k++ {
-			o := J2TOpts{S2i: r.Intn(2) == 0, Nob64: r.Intn(2) == 0, Disallow: r.Intn(5) == 0}
+			o := J2TOpts{S2i: r.Intn(2) == 0, Nob64: r.Intn(2) == 0, Disallow: r.Intn(5) == 0, Vm: vmDesc && r.Intn(4) != 0}
 			if c.prop == "c16" {
 				o.Wreq, o.Wdef, o.Wopt = r.Intn(2) == 0, r.Intn(2) == 0, r.Intn(2) == 0
 				o.Optbm, o.Usedflt = r.Intn(2) == 0, r.Intn(2) == 0
@@ -588,6 +619,18 @@ func (c *c02) genRandom(seed int64, base, n int) {
 			variant := "random"
 			if r.Intn(25) == 0 && c.prop != "c16" {
 				variant = "b64-escaped"
+			}
+			if o.Vm && r.Intn(5) == 0 {
+				variant = []string{"jsconv-null", "jsconv-escaped"}[r.Intn(2)]
+			}
+			if vmI16 && o.Vm {
+				variant = "jsconv-i16"
+			}
+			if variant != "random" {
+				// the document was generated for another shape: regenerate it for the labelled one
+				o.vmVar = variant
+				x = genDoc(r, c.cur.From, c.cur, 0, o)
+				fixJX(&x)
 			}
 			jc := J2TCase{Variant: variant, J: &x, O: o, Seed: r.Int63()}
 			c.out.Begin(base+i, jc)
